@@ -21,8 +21,9 @@ class FakeMesh:
 class RecDisc:
     """duck-typed discretisation: rhs(f) logs (time, data) and returns
     c0 + c1 t + (c2 + c3 t) q_i + c4 q_i q_{i+1 mod n}   (same formula as Flowdyn.Exec.testR)"""
-    def __init__(self, c, n, buffered=False):
+    def __init__(self, c, n, buffered=False, view=False):
         self.c = [float(x) for x in c]
+        self.view = bool(view) and [float(x) for x in c] == [0.0, 0.0, 1.0, 0.0, 0.0]
         self.nelem = n
         self.calls = []
         # buffered: the right-hand side writes into one preallocated output and returns the SAME list and arrays at every call
@@ -34,6 +35,8 @@ class RecDisc:
         qd = np.array(f.data[0], dtype=float)
         self.calls.append((t, qd.copy()))
         c = self.c
+        if self.view:
+            return [f.data[0]]           # R(q) = q handed back as the very array of the field it was given (c = [0,0,1,0,0])
         out = c[0] + c[1] * t + (c[2] + c[3] * t) * qd + c[4] * qd * np.roll(qd, -1)
         if self.buf is not None:
             self.buf[0][:] = out
@@ -74,13 +77,20 @@ def one_case(rng, cls, edge=False):
     else:
         dt = [abs(dyadic(rng, 0.05, 0.5)) + 2.0 ** -6]
     q0 = [dyadic(rng) for _ in range(n)]
-    return dict(cls=cls, n=n, c=c, t0=t0, dt=dt, q0=q0, buffered=bool(rng.random() < 0.3))
+    case = dict(cls=cls, n=n, c=c, t0=t0, dt=dt, q0=q0, buffered=bool(rng.random() < 0.3))
+    v = rng.random()
+    if v < 0.12:
+        # "for every right-hand side": R(q) = q returned as a VIEW of the state it was given (x' = v written [f.data[1], ...])
+        case['c'] = [0.0, 0.0, 1.0, 0.0, 0.0]; case['view'] = True; case['buffered'] = False
+    elif v < 0.27:
+        case['dt'] = [-x for x in dt]          # "all dt": integration backwards in time
+    return case
 
 
 def run_impl(case):
     cls = getattr(impl.integ, case['cls'])
     n = case['n']
-    disc = RecDisc(case['c'], n, buffered=bool(case.get('buffered')))
+    disc = RecDisc(case['c'], n, buffered=bool(case.get('buffered')), view=bool(case.get('view')))
     solver = cls(FakeMesh(n), disc)
     f = impl.field.fdata(FakeModel(), FakeMesh(n), [np.array(case['q0'], dtype=float)], t=case['t0'])
     dt = case['dt'][0] if len(case['dt']) == 1 else np.array(case['dt'], dtype=float)
@@ -124,7 +134,7 @@ def layer_int(ctx):
         g = parse_groups(line)
         mt, mq, mcalls = g[0][0], g[1], g[2:]
         sc = max(1.0, abs(case['t0']), max(abs(x) for x in case['q0']), max(abs(float(x)) for x in mq))
-        r.compare(cls + '/time', case, t1, mt, max(abs(case['t0']), max(case['dt'])))
+        r.compare(cls + '/time', case, t1, mt, max(abs(case['t0']), max(abs(x) for x in case['dt'])))
         r.compare(cls + '/data', case, q1, mq, sc * 8)
         if len(calls) != len(mcalls):
             r.cases += 1
